@@ -12,6 +12,7 @@ CONSTANTS
   MaxInbound = 1
   MaxTime = 660
   Faults = TRUE
+  MaxRestart = 1
   UseFourth = FALSE
   SetIdxs = {0}
   TimeSteps = {1, 2, 3, 7}
